@@ -471,6 +471,8 @@ func TestC16(t *testing.T) {
 		}
 	}
 
+	c16Concurrent(t, rec, env, ts, fs)
+
 	rapid.Check(t, func(rt *rapid.T) {
 		tree := genC16Tree(rt, rapid.IntRange(1, 6).Draw(rt, "depth"))
 		var ls []*c16node
@@ -555,4 +557,69 @@ func TestC16(t *testing.T) {
 		rec.Sample(map[string]any{"expr": expr, "want": want})
 		c16Check(rt, rec, env, cs, class)
 	})
+}
+
+// c16Concurrent: 8 goroutines build 8 different expressions at the same time,
+// repeatedly; every built condition must evaluate like its own expression.
+// Neighbouring expressions differ only in grouping / negation and have
+// opposite values, so a result that belongs to another goroutine's string
+// is visible.
+func c16Concurrent(t *testing.T, rec *ev.Rec, env *c16env, ts, fs []string) {
+	truth := func(tk string) bool { return env.truth[tk] }
+	var pool [][]string
+	T, F := ts[0], fs[0]
+	T2, F2 := ts[len(ts)-1], fs[len(fs)-1]
+	for _, e := range [][]string{
+		{"(", T, "||", T2, ")", "&&", F}, {T, "||", T2, "&&", F},
+		{"!", "(", F, "&&", F2, ")", "&&", T}, {"!", F, "&&", F2, "&&", T},
+		{T, "&&", "(", F, "||", T2, ")"}, {T, "&&", F, "||", F2},
+		{"!", "(", T, "||", F, ")"}, {"!", F, "||", T},
+		{F, "||", F2, "||", "!", T}, {F, "||", "!", "(", F2, "&&", T, ")"},
+		{"(", F, "||", T, ")", "&&", "(", T2, "||", F2, ")"}, {F, "&&", T, "||", T2, "&&", F2},
+		{"!", "!", T}, {"!", T},
+		{T, "&&", "!", F}, {T, "&&", "!", "!", F},
+	} {
+		pool = append(pool, e)
+	}
+	batches := ev.N(40, 400)
+	reps := 25
+	const width = 8
+	for b := 0; b < batches; b++ {
+		inputs := make([]string, width)
+		toks := make([][]string, width)
+		want := make([]bool, width)
+		for g := 0; g < width; g++ {
+			toks[g] = pool[(b*width+g*(1+b%3))%len(pool)]
+			if b%5 == 4 {
+				toks[g] = pool[(2*g+b%2)%len(pool)]
+			}
+			inputs[g] = strings.Join(toks[g], " ")
+			w, ok := evalTokens(toks[g], truth, "doc")
+			if !ok {
+				t.Fatalf("harness bug: %v", toks[g])
+			}
+			want[g] = w
+		}
+		res := concurrentBuild(inputs, reps)
+		for g := range res {
+			for r, one := range res[g] {
+				cs := &c16case{Expr: inputs[g], Tokens: toks[g], Want: want[g]}
+				rec.Case("concurrent|"+inputs[g], false, "concurrent-build")
+				if one.panicked != nil {
+					rec.Fail(t, "concurrent-build-panic", map[string]any{"case": cs, "batch": inputs}, "concurrent Build(%q) panicked in %s: %v", inputs[g], one.site, one.panicked)
+					return
+				}
+				if one.err != nil || one.cond == nil {
+					rec.Fail(t, "concurrent-build-rejected", map[string]any{"case": cs, "batch": inputs}, "concurrent Build(%q) failed: %v (other goroutines built %q)", inputs[g], one.err, inputs)
+					return
+				}
+				if got := one.cond.Match(env.req); got != want[g] {
+					rec.Fail(t, "concurrent-build-foreign-result", map[string]any{"case": cs, "batch": inputs, "rep": r},
+						"condition built from %q while 7 other goroutines were building %q evaluates to %v, its own expression gives %v", inputs[g], inputs, got, want[g])
+					return
+				}
+			}
+		}
+	}
+	rec.Set("concurrent_batches", int64(batches))
 }
